@@ -41,3 +41,34 @@ Proof.
       pose proof (callback_msg_obs fb cc ii (take 1024 d) o) as Hc; destruct (callback true fb cc ii kk) as [c1 o1] end.
     cbn [snd] in H, Hc. rewrite app_nil_r in H. cbn [c_T c_fb upd_A] in Hc. apply Hc, H.
 Qed.
+
+(* ... and it does reach it: a decodable datagram whose ID is that of a registered transaction is handed to that
+   transaction's handler, as exactly one invocation with exactly this datagram - whatever the clock says, however
+   many attempts were made, whatever class or method the message has, whether the client is closed or not; and
+   the transaction leaves the table.  (The agent must be open: a closed agent reports nothing.) *)
+Theorem deliver_reaches fb c d tid_of m t :
+  decode (set_raw new_msg (slice_of (take 1024 d) [])) = (m, Ok tt) ->
+  ag_closed (c_A c) = false ->
+  T_find (tid_of (m_tid m)) (c_T c) = Some t -> t_calls t = 0 ->
+  snd (c_deliver true fb c d tid_of) = [OInvoke (t_inst t) (t_h t) (HRMsg (take 1024 d))] /\
+  c_T (fst (c_deliver true fb c d tid_of)) = T_remove (tid_of (m_tid m)) (c_T c).
+Proof.
+  intros Ed Ha Ef Hc. unfold c_deliver. rewrite Ed. unfold a_step. rewrite Ha.
+  cbn [feed ev_id ev_kind]. unfold kind_evk. change (K_MESSAGE =? K_MESSAGE) with true. cbv iota.
+  unfold callback. cbn [negb andb c_T upd_A is_msg]. rewrite Ef. rewrite orb_true_r.
+  cbn [fst snd]. rewrite app_nil_r. unfold handle. rewrite Hc. cbn [N.eqb res_of c_T upd_T]. split; reflexivity.
+Qed.
+
+(* without such a transaction an open client hands it to the fallback handler, if there is one *)
+Theorem deliver_fallback fb c d tid_of m f :
+  decode (set_raw new_msg (slice_of (take 1024 d) [])) = (m, Ok tt) ->
+  ag_closed (c_A c) = false -> c_closed c = false ->
+  T_find (tid_of (m_tid m)) (c_T c) = None -> c_fb c = Some f ->
+  snd (c_deliver true fb c d tid_of) = [OFallback f (tid_of (m_tid m)) (EMsg (take 1024 d))] /\
+  c_T (fst (c_deliver true fb c d tid_of)) = c_T c.
+Proof.
+  intros Ed Ha Hcl Ef Hf. unfold c_deliver. rewrite Ed. unfold a_step. rewrite Ha.
+  cbn [feed ev_id ev_kind]. unfold kind_evk. change (K_MESSAGE =? K_MESSAGE) with true. cbv iota.
+  unfold callback. cbn [negb andb c_T c_fb c_closed upd_A is_stopped]. rewrite Ef, Hf, Hcl.
+  cbn [negb andb fst snd app c_T upd_A]. split; reflexivity.
+Qed.
